@@ -54,6 +54,7 @@ type Obligation struct {
 	Goal       string // term that must be valid in the context
 	CtxLen     int
 	Quantified bool
+	Retried    bool // undecided in the parallel pass, tried again with few neighbours
 	enc        *fnEnc
 	// results
 	Result   string // unsat (=discharged) | sat | unknown | timeout | error
@@ -228,6 +229,7 @@ func (e *fnEnc) loopInvariantTerm(li *loopInfo, v ssa.Value) func() string {
 }
 
 type fnEnc struct {
+	transDone bool // the reflexive/transitive obligations of [transitive:] postconditions were emitted
 	V        *Verifier
 	fn       *ssa.Function
 	fc       *FuncContract
@@ -668,6 +670,13 @@ func (V *Verifier) encodeFunction(fn *ssa.Function, fc *FuncContract) (enc *fnEn
 		inStates[b] = cur
 		e.execBlock(b, cur)
 		e.out[b] = cur
+	}
+	if fc != nil {
+		for _, ac := range fc.AfterCall {
+			if !ac.Used {
+				e.structureError(fmt.Sprintf("after-call %s: the function calls nothing of that name (on a reachable path)", ac.Callee))
+			}
+		}
 	}
 	return
 }
@@ -1461,6 +1470,64 @@ func (e *fnEnc) loopStoresLocal(li *loopInfo, a *ssa.Alloc) bool {
 	return false
 }
 
+// modsAvoidKey: every modifies item of the callee's contract is a ghost item (flag, map view),
+// or `*x` / elems(x) / spare(x) of a parameter x whose pointee / element type has no cell of
+// kind k, or whose argument is an object allocated inside the loop.
+func (e *fnEnc) modsAvoidKey(c *ssa.CallCommon, k string, keyOf func(types.Type) map[string]bool, freshInLoop func(ssa.Value) bool) bool {
+	fc := e.contractFor(c)
+	if fc == nil {
+		return false
+	}
+	callee := e.staticCallee(c)
+	argOf := func(name string) (ssa.Value, types.Type) {
+		if callee != nil {
+			for i, p := range callee.Params {
+				if p.Name() == name && i < len(c.Args) {
+					return c.Args[i], p.Type()
+				}
+			}
+			return nil, nil
+		}
+		if c.IsInvoke() && name == "recv" {
+			return c.Value, c.Value.Type()
+		}
+		return nil, nil
+	}
+	for _, m := range fc.Modifies {
+		switch v := m.(type) {
+		case *ECall:
+			switch v.Fun {
+			case "flag", "gmap", "content":
+				continue
+			case "elems", "spare":
+				if id, ok := v.Args[0].(*EIdent); ok {
+					if arg, t := argOf(id.Name); t != nil {
+						if sl, ok := t.Underlying().(*types.Slice); ok && (!keyOf(sl.Elem())[k] || freshInLoop(arg)) {
+							continue
+						}
+					}
+				}
+				return false
+			}
+			return false
+		case *EUnary:
+			if v.Op == "*" {
+				if id, ok := v.X.(*EIdent); ok {
+					if arg, t := argOf(id.Name); t != nil {
+						if pt, ok := t.Underlying().(*types.Pointer); ok && (!keyOf(pt.Elem())[k] || freshInLoop(arg)) {
+							continue
+						}
+					}
+				}
+			}
+			return false
+		default:
+			return false
+		}
+	}
+	return true
+}
+
 // appendOnlyWriters: every instruction of the loop that can write a cell of heap key k is an
 // append whose destination is (derived from) a header variable of this loop, or a store into
 // an object allocated inside the loop. Returns the entry values of those header slices.
@@ -1575,7 +1642,16 @@ func (e *fnEnc) appendOnlyWriters(li *loopInfo, k string, entryVals map[*ssa.Phi
 					}
 					continue
 				}
-				if e.callEffect(c) != effNone {
+				switch e.callEffect(c) {
+				case effNone:
+				case effSome:
+					// a callee with an explicit frame: harmless for this kind of cell if, by the
+					// types of its modifies items, it cannot write one - or writes only into an
+					// object allocated inside the loop
+					if !e.modsAvoidKey(c, k, keyOf, func(v ssa.Value) bool { return allocInLoop(v, 0) }) {
+						return nil, false
+					}
+				default:
 					return nil, false
 				}
 			}
